@@ -406,12 +406,60 @@ func init() {
 					}
 				}
 			case *ecdsa.PublicKey:
+				for i, k := range []*ecdsa.PublicKey{{Curve: pk.Curve, X: new(big.Int).Neg(pk.X), Y: pk.Y}, {Curve: pk.Curve, X: pk.X, Y: new(big.Int).Neg(pk.Y)}, {Curve: pk.Curve, X: new(big.Int).Neg(pk.X), Y: new(big.Int).Neg(pk.Y)},
+					{Curve: pk.Curve, X: new(big.Int).Add(pk.X, pk.Curve.Params().P), Y: pk.Y}} {
+					if ev.Verify(k) == nil {
+						c.Failf(fmt.Sprintf("C02:verifies-with-other-key:coordinates-with-other-sign-or-unreduced-%d:%s", i, alg), "Verify succeeds with a key object whose coordinates are the signer's with another sign / not reduced: not the signer's key")
+					}
+				}
 				if ev.Verify(&ecdsa.PublicKey{Curve: pk.Curve, X: pk.X, Y: new(big.Int).Sub(pk.Curve.Params().P, pk.Y)}) == nil {
 					c.Failf("C02:verifies-with-other-key:negated-point:"+alg, "Verify succeeds with the negation of the signer's public point")
 				}
 			}
 			if ev.Verify(s.key.Pub) != nil {
 				c.Failf("C02:genuine-token-stops-verifying:"+alg, "after Verify with an unusable key")
+			}
+		}, nil
+	}
+	// the signature field holds a GENUINE signature by the right key and algorithm - over something other than the
+	// Sig_structure (the bare payload, protected||payload, the structure of another context, of another payload)
+	Scenarios["c02.signature-over-something-else"] = func() (choice.Scenario, func() any) {
+		seeds := map[string]*c02Seed{}
+		for _, alg := range fixtures.AlgNames {
+			seeds[alg] = c02MakeSeed(alg, 1, 0)
+		}
+		return func(c *choice.Ctx) {
+			alg := fixtures.AlgNames[c.Choose("alg", len(fixtures.AlgNames))]
+			s := seeds[alg]
+			what := c.Choose("signed-bytes", 6)
+			var tbs []byte
+			switch what {
+			case 0:
+				tbs = s.view.payload
+			case 1:
+				tbs = append(append([]byte{}, s.view.prot...), s.view.payload...)
+			case 2: // the structure of a COSE_Sign signer ("Signature") instead of "Signature1"
+				tbs = mcbor.Encode(mcbor.A(mcbor.T("Signature"), mcbor.B(s.view.prot), mcbor.B(nil), mcbor.B(s.view.payload)))
+			case 3: // external_aad is not empty
+				tbs = mcbor.Encode(mcbor.A(mcbor.T("Signature1"), mcbor.B(s.view.prot), mcbor.B([]byte{0}), mcbor.B(s.view.payload)))
+			case 4: // the Sig_structure with an empty protected header
+				tbs = sigStructure(nil, s.view.payload)
+			case 5: // the hash of the Sig_structure
+				_, h := algHash(alg)
+				h.Write(sigStructure(s.view.prot, s.view.payload))
+				tbs = h.Sum(nil)
+			}
+			tok := envelope(s.view.prot, nil, s.view.payload, rawSignBytes(s.key, alg, tbs))
+			c02stats.State(tok)
+			ev, err := psatoken.DecodeEvidenceFromCOSE(tok)
+			c02stats.Trans.Add(1)
+			if err != nil {
+				return
+			}
+			for i := 0; i < 2; i++ {
+				if ev.Verify(s.key.Pub) == nil {
+					c.Failf(fmt.Sprintf("C02:verifies:signature-over-something-else-%d:%s", what, alg), "Verify (call %d) accepts a signature that the key made over bytes other than the Sig_structure of this token", i+1)
+				}
 			}
 		}, nil
 	}
@@ -781,6 +829,7 @@ func init() {
 		c02stats = NewStats()
 		dl := deadline(r, 120*time.Second, 20*time.Minute)
 		exploreChoice(r, "c02.unusable-keys", -1, dl)
+		exploreChoice(r, "c02.signature-over-something-else", -1, dl)
 		exploreChoice(r, "c02.evidence-copies", -1, dl)
 		exploreChoice(r, "c02.key-object-reused", -1, dl)
 		exploreChoiceOpts(r, "c02.key-object-reused-fresh-keys", -1, dl, 1)
